@@ -52,7 +52,7 @@ func VerifC12_Crash() {
 		if scenario < 2 {
 			_, _ = w.repo.AddCRL(loc, chainsOf(cert("CN=I1", sOld)))
 		} else {
-			_ = w.repo.updateCRL("h-h-" + url1)
+			_ = w.repo.updateCRL(idOfCDP(url1))
 		}
 	})
 	if !crashed {
